@@ -31,36 +31,30 @@ theorem verify_sound (V : Verifier) (cfg : FCfg) (now : Int) (c : Cmd)
 theorem handle_accept (V : Verifier) (cfg : FCfg) (st : FState) (now : Int) (k : Kind) (from_ : Nat) (c : Cmd)
     (h : (handle V cfg st now k from_ c).2.1 = true) : verify V cfg now c = true := by
   unfold handle handleWith at h
-  generalize mark st.seen now c.origin c.id from_ = m at h
-  obtain ⟨seen', isNew⟩ := m
-  dsimp only at h
-  by_cases h1 : (!isNew) = true
-  · rw [if_pos h1] at h; simp at h
-  · rw [if_neg h1] at h
-    by_cases h2 : c.seenBy.contains cfg.localID = true
-    · rw [if_pos h2] at h; simp at h
-    · rw [if_neg h2] at h
-      by_cases h3 : (!verifyWith tsOutside V cfg now c) = true
-      · rw [if_pos h3] at h; simp at h
-      · simp at h3; exact h3
+  by_cases h2 : c.seenBy.contains cfg.localID = true
+  · rw [if_pos h2] at h; simp at h
+  · rw [if_neg h2] at h
+    by_cases h3 : (!verifyWith tsOutside V cfg now c) = true
+    · rw [if_pos h3] at h; simp at h
+    · simp at h3; exact h3
 
 theorem handle_sends (V : Verifier) (cfg : FCfg) (st : FState) (now : Int) (k : Kind) (from_ : Nat) (c : Cmd) :
     ((handle V cfg st now k from_ c).2.2 ≠ [] → (handle V cfg st now k from_ c).2.1 = true) ∧
     ∀ x ∈ (handle V cfg st now k from_ c).2.2,
       x.2.origin = c.origin ∧ x.2.id = c.id ∧ x.2.ts = c.ts ∧ x.2.sig = c.sig := by
   unfold handle handleWith
-  generalize mark st.seen now c.origin c.id from_ = m
-  obtain ⟨seen', isNew⟩ := m
-  dsimp only
-  by_cases h1 : (!isNew) = true
-  · rw [if_pos h1]; simp
-  · rw [if_neg h1]
-    by_cases h2 : c.seenBy.contains cfg.localID = true
-    · rw [if_pos h2]; simp
-    · rw [if_neg h2]
-      by_cases h3 : (!verifyWith tsOutside V cfg now c) = true
-      · rw [if_pos h3]; simp
-      · rw [if_neg h3]
+  by_cases h2 : c.seenBy.contains cfg.localID = true
+  · rw [if_pos h2]; simp
+  · rw [if_neg h2]
+    by_cases h3 : (!verifyWith tsOutside V cfg now c) = true
+    · rw [if_pos h3]; simp
+    · rw [if_neg h3]
+      generalize mark st.seen now c.origin c.id from_ = m
+      obtain ⟨seen', isNew⟩ := m
+      dsimp only
+      by_cases h1 : (!isNew) = true
+      · rw [if_pos h1]; simp
+      · rw [if_neg h1]
         refine ⟨fun _ => rfl, ?_⟩
         intro x hx
         simp only [List.mem_map] at hx
